@@ -1191,18 +1191,27 @@ func c20Post(c *Check) {
 // Nothing of maddy runs.
 func c20EnvCleanup(c *Check) {
 	c.Rule("R7", "removeUnexpandedEnvvars: one pass of each clean-up expression leaves nothing the same expression matches (decided for the constant pattern over all strings of up to seven tokens of its own alphabet)", 1)
-	r := c.need("R7", cfgparserRel, "", "removeUnexpandedEnvvars")
-	if r == nil {
-		return
+	// wherever in the package the clean-up pass is made (the helper may have been inlined into its caller)
+	type site struct {
+		fi   *FuncInfo
+		call *ast.CallExpr
 	}
-	info := r.Info
-	n := 0
-	for _, call := range callsIn(r.FI.Decl.Body) {
-		if !isCall(info, call, "regexp.Regexp.ReplaceAllString", "regexp.Regexp.ReplaceAllLiteralString") || len(call.Args) != 2 {
-			continue
+	var sites []site
+	for _, fi := range funcsOfPkgs(c.P, cfgparserRel) {
+		for _, call := range callsIn(fi.Decl.Body) {
+			if isCall(fi.Info(), call, "regexp.Regexp.ReplaceAllString", "regexp.Regexp.ReplaceAllLiteralString") && len(call.Args) == 2 {
+				sites = append(sites, site{fi, call})
+			}
 		}
+	}
+	n := 0
+	for _, st := range sites {
+		call := st.call
+		r := &RuleCtx{C: c, FI: st.fi, Info: st.fi.Info()}
+		info := r.Info
+		c.SawFunc(st.fi.Name())
 		n++
-		key := "removeUnexpandedEnvvars:pass" + itoa(n)
+		key := "envvars-cleanup:pass" + itoa(n)
 		repl, okR := constString(info, call.Args[1])
 		v, isVar := objOf(info, callRecv(call)).(*types.Var)
 		if !okR || !isVar || v.Parent() != r.FI.Pkg.Types.Scope() {
@@ -1270,6 +1279,6 @@ func c20EnvCleanup(c *Check) {
 		c.Hold("R7", key, call.Pos(), witness == "", "one pass of "+strconv.Quote(pat)+" is not closed: "+witness+" – a live placeholder is left in the returned tree, and printing and parsing the tree again expands it (the round trip changes the tree)")
 	}
 	if n == 0 {
-		c.Fail("R7", "removeUnexpandedEnvvars:passes", r.FI.Decl.Pos(), "undecided: no clean-up pass found")
+		c.Fail("R7", "envvars-cleanup:passes", token.NoPos, "undecided: no clean-up pass (regexp ReplaceAllString) found in the configuration parser")
 	}
 }
